@@ -464,14 +464,14 @@ pub fn judge(rep: &Report, bytes: &[u8], msg: &Message) -> Option<String> {
     // timed record: frame kept as lowercase hex; decoding that hex again gives the same members
     // metadata as the receivers fill it in (two receptions, every optional member present in one of them)
     let metadata = vec![
-        rs1090::decode::SensorMetadata { system_timestamp: 1.5, gnss_timestamp: Some(1.25), nanoseconds: Some(123_456_789), rssi: Some(-12.5), serial: 17, name: Some("rx-a".to_string()) },
-        rs1090::decode::SensorMetadata { system_timestamp: 1.75, gnss_timestamp: None, nanoseconds: None, rssi: None, serial: 18, name: None },
+        rs1090::decode::SensorMetadata { system_timestamp: 1.5, gnss_timestamp: Some(1.25), nanoseconds: Some(123_456_789), rssi: Some(-12.5), serial: 17, name: Some("rx-a".to_string()), ..Default::default() },
+        rs1090::decode::SensorMetadata { system_timestamp: 1.75, gnss_timestamp: None, nanoseconds: None, rssi: None, serial: 18, name: None, ..Default::default() },
     ];
     // the record's own time stamp runs through ordinary, extreme and non-finite values (chosen by the frame's bytes, so
     // that every message shape meets every kind of stamp somewhere in the sweep)
     const STAMPS: [f64; 10] = [1.5, 0.0, 1_700_000_000.123_456, f64::NAN, f64::INFINITY, f64::NEG_INFINITY, f64::MAX, 1e-310, -1.0, 1.8e302];
     let pick = bytes.iter().fold(0usize, |a, b| a.wrapping_mul(31).wrapping_add(*b as usize)) % STAMPS.len();
-    let tm = TimedMessage { timestamp: STAMPS[pick], frame: bytes.to_vec(), message: Some(msg.clone()), metadata, decode_time: Some(0.001) };
+    let tm = TimedMessage { timestamp: STAMPS[pick], frame: bytes.to_vec(), message: Some(msg.clone()), metadata, decode_time: Some(0.001), ..Default::default() };
     match guarded(|| serde_json::to_string(&tm)) {
         Ok(Ok(tt)) => match P::parse_document(&tt) {
             Ok(td) => {
